@@ -113,8 +113,7 @@ def r1_order(ctx: Ctx, eng: Decider, leg: Decider) -> None:
                 bad = _reordering_expr(s.iter)
                 ctx.check(not bad, 'C01.R1', f, f'build-loop:{src(s.iter)[:30]}', f'builder loop iterates {src(s.iter)[:40]} in order',
                           f'builder loop iterates {src(s.iter)[:60]!r} ({bad})', s)
-    if n_builders < 4:
-        raise AnalysisError(f'C01.R1: only {n_builders} order-preserving builders found (6 confirmed by hand)')
+    ctx.need(not (n_builders < 4), f'C01.R1: only {n_builders} order-preserving builders found (6 confirmed by hand)')
 
 
 def _reordering_expr(e) -> str:
